@@ -2,12 +2,12 @@ import BctVerif.Model.Basic
 /-!
 # Executable model of the synthetic generators of `bct/algorithms/reference.py`
 
-`makerandCIJ_dir`, `makerandCIJ_und`, `makeringlatticeCIJ`, `makeevenCIJ`.
+`makerandCIJ_dir`, `makerandCIJ_und`, `makeringlatticeCIJ`, `makeevenCIJ`, `makerandCIJdegreesfixed`.
+A `rng.randint(k)` draw is its value.
 A `rng.permutation(m)` draw is an explicit input: its m values (`List Nat`).
 
-Written against the repaired routines (D3: `seq[count - 1]`, D4: `CIJ + CIJ.T`).  The ring lattice
-is modelled *as coded*, including the still-present defect D19 (for even n the antipodal band
-`n/2` is added twice); the theorem `ring_spec` is stated on the domain where the code is right.
+Written against the repaired routines (D3: `seq[count - 1]`, D4: `CIJ + CIJ.T`, D19: the band is
+clipped to 0/1, D5: integer stub arrays and `CIJ[edges[0,i], edges[1,switch]] = 1` in the repair).
 -/
 namespace Bct.Synth
 open Bct
@@ -50,11 +50,13 @@ def b2i (b : Bool) : Int := if b then 1 else 0
 /-- `np.triu(CIJ1, c) - np.triu(CIJ1, c + 1)` : the c-th superdiagonal -/
 def superDiag (n c : Nat) : AMat Int n := AMat.ofFn fun i j => b2i (j.val == i.val + c)
 
-/-- `dCIJ + dCIJ.T + dCIJ2 + dCIJ2.T` for `seq[count-1] = count`, `seq2[count-1] = n - count` -/
+/-- `np.minimum(dCIJ + dCIJ.T + dCIJ2 + dCIJ2.T, 1)` for `seq[count-1] = count`,
+`seq2[count-1] = n - count` (the clip makes the antipodal band `count = n/2` of an even ring,
+where both offsets coincide, a 0/1 band like the others) -/
 def band (n count : Nat) : AMat Int n :=
   AMat.ofFn fun i j =>
-    (superDiag n count).get i j + (superDiag n count).get j i +
-    (superDiag n (n - count)).get i j + (superDiag n (n - count)).get j i
+    min ((superDiag n count).get i j + (superDiag n count).get j i +
+         (superDiag n (n - count)).get i j + (superDiag n (n - count)).get j i) 1
 
 def matAdd {n} (A B : AMat Int n) : AMat Int n := AMat.ofFn fun i j => A.get i j + B.get i j
 
@@ -145,6 +147,75 @@ def evenCIJ (n mx k szcl : Nat) (ds : List Nat) : Except Err (AMat Int n × List
     else if !isPermOfRange (ds.take m) m then .error .badDraw
     else .ok (writeOnes P (choose free (ds.take m) remK), ds.drop m)
 
+/-! ### makerandCIJdegreesfixed -/
+
+/-- stub list: node i repeated `v i` times (`a[s:s+v[i]] = i` for i = 0 … n-1) -/
+def stubs {n} (v : Fin n → Nat) : List (Fin n) := (List.finRange n).flatMap fun i => List.replicate (v i) i
+
+/-- the stub array has length k = sum(inv): slices are clipped at k, unwritten entries stay 0 -/
+def fitTo {n} (k : Nat) (l : List (Fin n)) : List (Fin n) :=
+  l.take k ++ (if h : 0 < n then List.replicate (k - l.length) ⟨0, h⟩ else [])
+
+def toVec {α} (k : Nat) (l : List α) : Option (Vector α k) :=
+  if h : l.length = k then some ⟨l.toArray, by simp [h]⟩ else none
+
+structure DfSt (n k : Nat) where
+  C : AMat Int n
+  e1 : Vector (Fin n) k        -- `edges[1, :]`
+
+/-- `switch = rng.randint(k); while switch in tried: switch = rng.randint(k)` -/
+def drawUntried (k : Nat) (tried : List Nat) : List Nat → Except Err (Fin k × List Nat)
+  | [] => .error .outOfDraws
+  | x :: ds => if h : x < k then (if tried.contains x then drawUntried k tried ds else .ok (⟨x, h⟩, ds)) else .error .badDraw
+
+/-- the accepted repair: `CIJ[e0[i], e1[s]] = 1; if s < i: CIJ[e0[s], e1[s]] = 0; CIJ[e0[s], e1[i]] = 1;`
+swap `e1[i]`, `e1[s]` -/
+def applySwitch {n k} (e0 : Vector (Fin n) k) (st : DfSt n k) (i s : Fin k) : DfSt n k :=
+  let C1 := st.C.set e0[i] st.e1[s] 1
+  let C2 := if s.val < i.val then (C1.set e0[s] st.e1[s] 0).set e0[s] st.e1[i] 1 else C1
+  { C := C2, e1 := (st.e1.set i st.e1[s]).set s st.e1[i] }
+
+/-- the `while True:` repair loop for edge i (`tried` is the set of rejected switch indices) -/
+def repair {n k} (e0 : Vector (Fin n) k) (st : DfSt n k) (i : Fin k) :
+    (fuel : Nat) → (tried : List Nat) → List Nat → Except Err (DfSt n k × List Nat)
+  | 0, _, _ => .error .outOfDraws
+  | fuel + 1, tried, ds =>
+    if tried.length = k then .error .param else
+    match drawUntried k tried ds with
+    | .error e => .error e
+    | .ok (s, ds') =>
+      if st.C.get e0[i] st.e1[s] == 0 && st.C.get e0[s] st.e1[i] == 0 then .ok (applySwitch e0 st i s, ds')
+      else repair e0 st i fuel (s.val :: tried) ds'
+
+/-- one pass of `for i in range(k)` -/
+def placeEdge {n k} (e0 : Vector (Fin n) k) (st : DfSt n k) (i : Fin k) (ds : List Nat) :
+    Except Err (DfSt n k × List Nat) :=
+  if st.C.get e0[i] st.e1[i] != 0 then repair e0 st i (ds.length + 1) [] ds
+  else .ok ({ st with C := st.C.set e0[i] st.e1[i] 1 }, ds)
+
+def placeAll {n k} (e0 : Vector (Fin n) k) : List (Fin k) → DfSt n k → List Nat → Except Err (DfSt n k × List Nat)
+  | [], st, ds => .ok (st, ds)
+  | i :: is, st, ds =>
+    match placeEdge e0 st i ds with
+    | .error e => .error e
+    | .ok (st', ds') => placeAll e0 is st' ds'
+
+def eye (n : Nat) : AMat Int n := AMat.ofFn fun i j => if i = j then 1 else 0
+
+/-- `makerandCIJdegreesfixed(inv, outv)` -/
+def degreesFixed {n} (inv outv : Fin n → Nat) (ds : List Nat) : Except Err (AMat Int n × List Nat) :=
+  let k := ((List.finRange n).map inv).sum
+  if ds.length < k then .error .outOfDraws
+  else if !isPermOfRange (ds.take k) k then .error .badDraw
+  else
+    let inStub := fitTo k (stubs inv)
+    match toVec k (fitTo k (stubs outv)), toVec k ((ds.take k).filterMap (inStub[·]?)) with
+    | some e0, some e1 =>
+      match placeAll e0 (List.finRange k) { C := eye n, e1 := e1 } (ds.drop k) with
+      | .error e => .error e
+      | .ok (st, rest) => .ok (AMat.ofFn fun i j => st.C.get i j - (eye n).get i j, rest)
+    | _, _ => .error .index
+
 /-! ### driver -/
 
 def step (line : String) : String :=
@@ -164,6 +235,11 @@ def step (line : String) : String :=
       let mx ← (← lookup kv "mx").toNat?
       let szcl ← (← lookup kv "szcl").toNat?
       some (out (evenCIJ n mx k szcl ds))
+    else if op == "makerandCIJdegreesfixed" then
+      let iv ← parseNats (← lookup kv "inv")
+      let ov ← parseNats (← lookup kv "outv")
+      if iv.length ≠ n ∨ ov.length ≠ n then none
+      else some (out (degreesFixed (fun i : Fin n => iv[i.val]!) (fun i : Fin n => ov[i.val]!) ds))
     else none
   res.getD "error=protocol"
 
